@@ -34,11 +34,23 @@ def table():
 
 def wrapper_kind(fd):
     k = fd["k"]
+    if k == "anyOf":
+        # a collection held through AnyOf / Optional: the wrapper is built by the option that holds the value
+        # (generated with exactly one collection option)
+        kinds = [wrapper_kind(x) for x in fd["fields"] if wrapper_kind(x)]
+        return kinds[0] if len(kinds) == 1 else None
     if k in ("seqAny", "seqOf", "seqPos"):
         return "deque" if fd.get("seq") == "deque" else "list"
     if k in ("mapAny", "mapOf"):
         return "dict"
     return None
+
+
+def coll_option(fd):
+    """the collection option of an AnyOf-held collection (else fd itself)"""
+    if fd["k"] == "anyOf":
+        return next((x for x in fd["fields"] if wrapper_kind(x)), fd)
+    return fd
 
 
 def elem_decl(fd, i=0):
@@ -178,6 +190,9 @@ def gen_cases(rng, tier, n_classes, immutable=None):
         fields = []
         for nm in names:
             fd = gen_collection_decl(rng, dg) if rng.random() < 0.75 else dg.decl(1)
+            if wrapper_kind(fd) and fd["k"] != "anyOf" and rng.random() < 0.18:
+                other = rng.choice([{"k": "noneF"}, {"k": "string"}, {"k": "integer"}, {"k": "boolean"}])
+                fd = {"k": "anyOf", "fields": [fd, other] if rng.random() < 0.6 else [other, fd]}
             fields.append([nm, fd])
         imm_cls = immutable is True or (immutable is None and rng.random() < 0.15)
         cls = {"k": "struct", "name": f"M{ci}", "required": sorted(nm for nm in names if rng.random() < 0.5),
@@ -187,7 +202,7 @@ def gen_cases(rng, tier, n_classes, immutable=None):
         if imm_cls:
             cls["immutable"] = True
         elif immutable is not False and rng.random() < 0.25:
-            cand = [nm for nm, fd in fields if wrapper_kind(fd) or fd["k"] in ("integer", "string")
+            cand = [nm for nm, fd in fields if (wrapper_kind(fd) and fd["k"] != "anyOf") or fd["k"] in ("integer", "string")
                     and fd.get("sign", "any") == "any"]
             if cand:
                 cls["immFields"] = sorted(rng.sample(cand, rng.randint(1, len(cand))))
@@ -215,11 +230,11 @@ def gen_cases(rng, tier, n_classes, immutable=None):
                 kind = wrapper_kind(fd)
                 if kind and r < 0.62 and nm in cur:
                     m = rng.choice(tbl[kind])
-                    args = gen_args(rng, vg, kind, m, fd, cur.get(nm))
+                    args = gen_args(rng, vg, kind, m, coll_option(fd), cur.get(nm) if isinstance(cur.get(nm), dict) else None)
                     if args is not None:
                         ops.append({"op": "call", "f": nm, "m": m, "args": args})
                         continue
-                if kind and r < 0.75 and nm in cur:
+                if kind and r < 0.75 and nm in cur and fd["k"] != "anyOf":
                     ed = elem_decl(fd)
                     nk = wrapper_kind(ed) if ed else None
                     if nk:
